@@ -128,7 +128,12 @@ def main():
         else:
             unknown[k] += n
 
-    mins = mod.minimums(args.tier) if hasattr(mod, "minimums") else {}
+    mins = {}
+    if hasattr(mod, "minimums"):
+        try:
+            mins = mod.minimums(args.tier, m["counters"])      # may adapt to unattached auxiliary attach points
+        except TypeError:
+            mins = mod.minimums(args.tier)
     unmet = {k: (m["counters"].get(k, 0), v) for k, v in mins.items() if m["counters"].get(k, 0) < v}
     reasons = []
     if m["failed"]:
